@@ -1,21 +1,21 @@
 //! Ad-hoc experiments (not part of any registered check).
+use memvid_core::SketchSearchOptions;
 fn main() {
     let f = std::env::args().nth(1).unwrap();
     let v: serde_json::Value = serde_json::from_slice(&std::fs::read(f).unwrap()).unwrap();
-    let c: vh::props::c34::Case = serde_json::from_value(v["case"].clone()).unwrap();
-    let text = vh::props::c34::build_text(&c);
-    let needle = std::env::args().nth(2).unwrap();
-    let norm = memvid_core::normalize_text(&text, usize::MAX).unwrap().text;
-    let (chunks, _m) = memvid_core::verif_hooks::plan_text_chunks(&text).unwrap();
-    let lines: Vec<&str> = norm.lines().collect();
-    let idx = lines.iter().position(|l| l.contains(&needle)).unwrap();
-    println!("--- normalized lines around the lost one (line {idx} of {}):", lines.len());
-    for l in &lines[idx.saturating_sub(3)..(idx + 4).min(lines.len())] { println!("  {l}"); }
-    if let Some(k) = std::env::args().nth(3) {
-        for (i, ch) in chunks.iter().enumerate() { for l in ch.lines() { if l.contains(&k) { println!("chunk {i} has line: {l:?}"); } } }
+    let c: vh::props::c09::Case = serde_json::from_value(v["case"].clone()).unwrap();
+    let word = vh::corpus::planted_word(c.word);
+    let b = vh::corpus::build("probe", &c.corpus).unwrap();
+    let mut mem = b.mem;
+    let frames = vh::corpus::all_frames(&mem);
+    println!("expected: {:?}", vh::corpus::frames_containing(&frames, &word));
+    for f in &frames { println!("frame {} role={:?} status={:?} parent={:?} st_len={:?} has={}", f.id, f.role, f.status, f.parent_id, f.search_text.as_ref().map(|s| s.len()), f.search_text.as_deref().map(|t| vh::corpus::contains_word(t,&word)).unwrap_or(false)); }
+    for ns in [true,false] {
+        let mut r = vh::corpus::request(&word, 3); r.no_sketch = ns;
+        let resp = mem.search(r).unwrap();
+        println!("no_sketch={ns}: total={} hits={:?} engine={:?}", resp.total_hits, resp.hits.iter().map(|h| (h.frame_id, h.range)).collect::<Vec<_>>(), resp.engine);
     }
-    for (i, ch) in chunks.iter().enumerate() {
-        let ls: Vec<&str> = ch.lines().collect();
-        println!("--- chunk {i}: {} chars, {} lines; first: {:?} last: {:?}", ch.chars().count(), ls.len(), ls.first(), ls.last());
-    }
+    let cands = mem.find_sketch_candidates(&word, Some(SketchSearchOptions { hamming_threshold: 32, max_candidates: 500, min_score: 0.0 }));
+    println!("cands: {:?}", cands.iter().map(|c| (c.frame_id, c.hamming_distance)).collect::<Vec<_>>());
+    println!("sketch frames: {:?}", mem.sketches().iter().map(|e| e.frame_id).collect::<Vec<_>>());
 }
